@@ -131,4 +131,27 @@ theorem zmap_centre (V : Int) (f : Flags) (g : AxGeo) (hg : g.Symmetric) (b : Bi
     exact this
   · rw [hop]; exact mkShift_centre V f g hg b.seg b.ax
 
+/-- the z map of an operation is an isometry of the axis (a translation or a reflection) -/
+theorem zmap4_dist (o : SymOp) (u v : Int) :
+    o.zmap4 u - o.zmap4 v = u - v ∨ o.zmap4 u - o.zmap4 v = -(u - v) := by
+  obtain ⟨k, V, a, zs, q⟩ := o
+  cases k <;> simp only [SymOp.zmap4] <;> first | exact Or.inl trivial | exact Or.inl (by omega) | exact Or.inr (by omega)
+
+/-- **axial slab**: a voxel whose plane lies within `w` quarter planes of the axial midpoint of the basic bin's LOR
+    is moved to a plane within `w` quarter planes of the axial midpoint of the LOR of `b` -/
+theorem onVoxel_z_slab (V : Int) (f : Flags) (g : AxGeo) (hg : g.Symmetric) (b : Bin) (c : Vox) (w : Int)
+    (h : -w ≤ 4 * c.z - (Sym.make V f g).centre4 ((Sym.make V f g).basic b).seg ((Sym.make V f g).basic b).ax ∧
+      4 * c.z - (Sym.make V f g).centre4 ((Sym.make V f g).basic b).seg ((Sym.make V f g).basic b).ax ≤ w) :
+    -w ≤ 4 * (((Sym.make V f g).findSymOp b).onVoxel c).z - (Sym.make V f g).centre4 b.seg b.ax ∧
+      4 * (((Sym.make V f g).findSymOp b).onVoxel c).z - (Sym.make V f g).centre4 b.seg b.ax ≤ w := by
+  have h1 : ((Sym.make V f g).findSymOp b).zmap4
+      ((Sym.make V f g).centre4 ((Sym.make V f g).basic b).seg ((Sym.make V f g).basic b).ax) =
+        (Sym.make V f g).centre4 b.seg b.ax := zmap_centre V f g hg b
+  have h2 := onVoxel_zmap4 ((Sym.make V f g).findSymOp b) c
+  have h3 := zmap4_dist ((Sym.make V f g).findSymOp b) (4 * c.z)
+    ((Sym.make V f g).centre4 ((Sym.make V f g).basic b).seg ((Sym.make V f g).basic b).ax)
+  rw [h1] at h3
+  rw [h2]
+  rcases h3 with h3 | h3 <;> omega
+
 end StirVerif.C03
